@@ -990,3 +990,120 @@ Proof.
   intros i' eid' k t' c' Hi' Hk' Hc' E. inversion E; subst i' c'. simpl in *.
   apply col_of_sound in Hc'. congruence.
 Qed.
+
+(* ---- stacked time: rows (period j, equation i) at i + n*j, columns = the wrt spots ----------------- *)
+
+Lemma stacked_cols_In : forall tok cols cte eqn n rhs_row j0 lr lc rr rc,
+  In (lr, lc, rr, rc) (stacked_cols tok cols cte eqn n rhs_row j0) <->
+  rr = rhs_row /\ exists j col, nth_error cte j = Some col /\ col_of cols (shifted tok col) = Some lc /\
+                                lr = eqn + n * (j0 + j) /\ rc = j0 + j.
+Proof.
+  intros tok cols cte. induction cte as [ | x r IH]; intros eqn n rhs_row j0 lr lc rr rc; simpl.
+  - split; [ contradiction | intros (_ & j & col & H & _) ]. destruct j; discriminate.
+  - destruct (col_of cols (shifted tok x)) as [cx | ] eqn:E; simpl; rewrite IH; split.
+    + intros [H | (-> & j & col & Hj & Hc & -> & ->)].
+      * inversion H; subst. split; auto. exists 0, x. simpl. rewrite Nat.add_0_r. auto.
+      * split; auto. exists (S j), col. simpl. repeat split; auto; nia.
+    + intros (-> & j & col & Hj & Hc & -> & ->). destruct j as [ | j]; simpl in Hj.
+      * inversion Hj; subst col. rewrite E in Hc. inversion Hc; subst. left. now rewrite Nat.add_0_r.
+      * right. split; auto. exists j, col. repeat split; auto; nia.
+    + intros (-> & j & col & Hj & Hc & -> & ->). split; auto. exists (S j), col. simpl. repeat split; auto; nia.
+    + intros (-> & j & col & Hj & Hc & -> & ->). destruct j as [ | j]; simpl in Hj.
+      * inversion Hj; subst col. congruence.
+      * split; auto. exists j, col. repeat split; auto; nia.
+Qed.
+
+Lemma stacked_toks_In : forall toks cols cte eqn n rhs_row lr lc rr rc,
+  In (lr, lc, rr, rc) (stacked_toks toks cols cte eqn n rhs_row) <->
+  exists k tok, nth_error toks k = Some tok /\ rr = rhs_row + k /\
+  exists j col, nth_error cte j = Some col /\ col_of cols (shifted tok col) = Some lc /\ lr = eqn + n * j /\ rc = j.
+Proof.
+  induction toks as [ | x r IH]; intros cols cte eqn n rhs_row lr lc rr rc; simpl.
+  - split; [ contradiction | intros (k & tok & H & _) ]. destruct k; discriminate.
+  - rewrite in_app_iff, stacked_cols_In, IH. split.
+    + intros [(-> & j & col & Hj & Hc & -> & ->) | (k & tok & Hk & -> & R)].
+      * exists 0, x. simpl. split; auto. split; [ lia | ]. exists j, col. auto.
+      * exists (S k), tok. simpl. split; auto. split; [ lia | exact R ].
+    + intros (k & tok & Hk & -> & j & col & Hj & Hc & -> & ->). destruct k as [ | k]; simpl in Hk.
+      * inversion Hk; subst tok. left. split; [ lia | ]. exists j, col. auto.
+      * right. exists k, tok. split; auto. split; [ lia | ]. exists j, col. auto.
+Qed.
+
+Lemma stacked_from_In : forall m cols cte n eids e0 off0 lr lc rr rc,
+  In (lr, lc, rr, rc) (stacked_from m cols cte n eids e0 off0) <->
+  exists i eid, nth_error eids i = Some eid /\
+  exists k tok, nth_error (wrt_of m eid) k = Some tok /\ rr = off0 + prefix_len m (firstn i eids) + k /\
+  exists j col, nth_error cte j = Some col /\ col_of cols (shifted tok col) = Some lc /\ lr = e0 + i + n * j /\ rc = j.
+Proof.
+  intros m cols cte n eids. induction eids as [ | e r IH]; intros e0 off0 lr lc rr rc; simpl.
+  - split; [ contradiction | intros (i & eid & H & _) ]. destruct i; discriminate.
+  - rewrite in_app_iff, stacked_toks_In, IH. split.
+    + intros [(k & tok & Hk & -> & j & col & Hj & Hc & -> & ->) | (i & eid & Hi & k & tok & Hk & -> & j & col & Hj & Hc & -> & ->)].
+      * exists 0, e. simpl. split; auto. exists k, tok. split; auto. split; [ lia | ]. exists j, col. repeat split; auto; lia.
+      * exists (S i), eid. simpl. split; auto. exists k, tok. split; auto. split; [ lia | ].
+        exists j, col. repeat split; auto; lia.
+    + intros (i & eid & Hi & k & tok & Hk & -> & j & col & Hj & Hc & -> & ->). destruct i as [ | i]; simpl in *.
+      * inversion Hi; subst eid. left. exists k, tok. split; auto. split; [ lia | ]. exists j, col. repeat split; auto; lia.
+      * right. exists i, eid. split; auto. exists k, tok. split; auto. split; [ lia | ].
+        exists j, col. repeat split; auto; lia.
+Qed.
+
+Lemma shifted_inj : forall a b k, shifted a k = shifted b k -> a = b.
+Proof. intros [q s] [q' s'] k H. unfold shifted in H. simpl in H. inversion H. f_equal. lia. Qed.
+
+Lemma decode_row : forall n i j i' j', i < n -> i' < n -> i + n * j = i' + n * j' -> i = i' /\ j = j'.
+Proof.
+  intros n i j i' j' Hi Hi' E.
+  assert (Hn : n <> 0) by lia.
+  assert (J : j = j').
+  { rewrite (Nat.div_unique (i + n * j) n j i) by lia.
+    rewrite (Nat.div_unique (i' + n * j') n j' i') by lia. now rewrite E. }
+  subst j'. split; [ lia | reflexivity ].
+Qed.
+
+Lemma stacked_functional : forall eids m spots cte,
+  (forall e, In e eids -> NoDup (wrt_of m e)) ->
+  functional (stacked_map eids m spots cte).
+Proof.
+  intros eids m spots cte ND [[[lr lc] rr] rc] [[[lr' lc'] rr'] rc'] H1 H2 E.
+  unfold lhs_of in E. inversion E; subst lr' lc'. clear E.
+  unfold stacked_map in *. apply stacked_from_In in H1, H2.
+  destruct H1 as (i & eid & Hi & k & tok & Hk & -> & j & col & Hj & Hc & Hlr & ->).
+  destruct H2 as (i' & eid' & Hi' & k' & tok' & Hk' & -> & j' & col' & Hj' & Hc' & Hlr' & ->).
+  assert (Hil : i < List.length eids) by (apply nth_error_Some; congruence).
+  assert (Hil' : i' < List.length eids) by (apply nth_error_Some; congruence).
+  destruct (decode_row (List.length eids) i j i' j' Hil Hil') as [-> ->]; [ lia | ].
+  assert (eid = eid') by congruence. subst eid'. assert (col = col') by congruence. subst col'.
+  assert (tok = tok') by (eapply shifted_inj, col_of_inj; eauto). subst tok'.
+  assert (k = k').
+  { eapply NoDup_nth_error_inj; [ apply (ND eid) | eauto | eauto ]. eapply nth_error_In; eauto. }
+  subst k'. reflexivity.
+Qed.
+
+(* THE PLACEMENT THEOREM for the stacked-time Jacobian: the residual of equation eids[i] in the j-th simulated
+   period (data column col) differentiated w.r.t. its k-th wrt token lands in row i + n*j and in the column of
+   the spot (qid, shift + col); every other cell is zero *)
+Theorem stacked_map_places : forall {V} (zero : V) (td : nat -> nat -> V) eids m spots cte i eid k tok j col c,
+  (forall e, In e eids -> NoDup (wrt_of m e)) ->
+  nth_error eids i = Some eid -> nth_error (wrt_of m eid) k = Some tok -> nth_error cte j = Some col ->
+  col_of (some_columns spots) (shifted tok col) = Some c ->
+  cell zero td (stacked_map eids m spots cte) (i + List.length eids * j) c = td (prefix_len m (firstn i eids) + k) j.
+Proof.
+  intros V zero td eids m spots cte i eid k tok j col c ND Hi Hk Hj Hc.
+  apply cell_hit; [ now apply stacked_functional | ].
+  unfold stacked_map. apply stacked_from_In. exists i, eid. split; auto.
+  exists k, tok. split; auto. split; [ lia | ]. exists j, col. repeat split; auto.
+Qed.
+
+Theorem stacked_map_zero_elsewhere : forall {V} (zero : V) (td : nat -> nat -> V) eids m spots cte r cc,
+  (forall i eid k tok j col, nth_error eids i = Some eid -> nth_error (wrt_of m eid) k = Some tok ->
+     nth_error cte j = Some col -> col_of (some_columns spots) (shifted tok col) = Some cc ->
+     r <> i + List.length eids * j) ->
+  cell zero td (stacked_map eids m spots cte) r cc = zero.
+Proof.
+  intros V zero td eids m spots cte r cc H. apply cell_miss.
+  intros [[[lr lc] rr] rc] Hin E. unfold lhs_of in E. inversion E; subst lr lc.
+  unfold stacked_map in Hin. apply stacked_from_In in Hin.
+  destruct Hin as (i & eid & Hi & k & tok & Hk & -> & j & col & Hj & Hc & Hr & ->).
+  apply (H i eid k tok j col Hi Hk Hj Hc). lia.
+Qed.
